@@ -60,8 +60,14 @@ func init() {
 				return true
 			})
 		}
-		if len(inf) != 1 {
-			fail("%s: kfArrayFor: expected exactly one string literal returned (the cap marker), found %d", rel, len(inf))
+		// several return sites are fine as long as they return the same marker
+		for _, m := range inf {
+			if m != inf[0] {
+				fail("%s: kfArrayFor: different string literals are returned (%q, %q): which one is the cap marker?", rel, inf[0], m)
+			}
+		}
+		if len(inf) == 0 {
+			fail("%s: kfArrayFor: no string literal is returned (the cap marker)", rel)
 			inf = []string{""}
 		}
 		g.def("MaxIterations", "Z", coqZ(localConst("kfArrayFor", "MAX_ITERATIONS")), rel+": kfArrayFor, const MAX_ITERATIONS")
